@@ -36,8 +36,14 @@ MANIFEST = dict(
 H = "esutil.htm.htm."
 
 
+# rules that keep their verdict however the code is laid out (decided by term equality, effect analysis or dominance over
+# resolved calls); every other rule of this check is a template rule (vcheck.core.Check.obt)
+SEMANTIC = ('R12.2', 'R12.7', 'R12.8', 'R12.9')
+
+
 def run(chk):
     repo = PyRepo()
+    chk.set_templates(repo, semantic=SEMANTIC)
     chk.explanation = MANIFEST["text"]
     chk.trusted = ["clang 14 AST", "SWIG naming convention", "std::sort", "CPython ast", "sympy normaliser"]
     chk.floor = 55
